@@ -66,6 +66,8 @@ CONSTANTS = {
          r"\"Malformed Avro varint: too many continuation bytes\"\.to_string\(\),\s*\)\);\s*\}\s*\*buf = &buf\[(1)\.\.\];", "int"),
         ("SHAPE_TRY_PUSH_CHAR_BOUNDARY", "parquet/src/arrow/buffer/offset_buffer.rs", r"if \(b as i8\) < -(0x40) \{", "int"),
         ("SHAPE_THRIFT_SKIP_BOOL_NO_DATA", _T, r"FieldType::BooleanFalse \| FieldType::BooleanTrue => Ok\(\(\)\),()", "intlist"),
+        ("SHAPE_THRIFT_SKIP_BOOL_LIST_BYTES", _T,
+         r"let list_ident = self\.read_list_begin\(\)\?;\s*if list_ident\.element_type == ElementType::Bool \{\s*(?://[^\n]*\n\s*)*return self\.skip_bytes\(list_ident\.size as usize\);()", "intlist"),
         ("SHAPE_THRIFT_DELTA_CHECKED_ADD", _T, r"last_field_id\.checked_add\(field_delta as i16\)\.ok_or\(()", "intlist"),
         ("SHAPE_THRIFT_LIST_SIZE_I32", _T, r"i32::try_from\(self\.read_vlq\(\)\?\)\?()\s*\};\s*Ok\(ListIdentifier \{", "intlist"),
         ("SHAPE_THRIFT_LIST_EMPTY_HEADER", _T, r"if header == (0) \{\s*return Ok\(ListIdentifier \{\s*element_type: ElementType::Byte,\s*size: 0,", "int"),
